@@ -81,6 +81,7 @@ impl FmtFlags {
     }
 
     pub fn from_raw(flags: usize) -> Self {
-        FmtFlags(flags)
+        // only the defined bits: the value travels as a formatter width, which is limited to u16
+        FmtFlags(flags & (FMT_BASE_MASK | FMT_PREFIX_BIT | FMT_TAGS_BIT | FMT_FITSCREEN_BIT | FMT_UPCASE_BIT))
     }
 }
